@@ -377,18 +377,32 @@ func (s *scen18) emitCase(label string) {
 		"rcv_locked": s.p.V.SchedRcvLocked(), "oracle_only": s.oracleOnly, "collision": s.collision})
 }
 
-func c18(seed uint64, n int) {
-	for _, w := range []string{"cancel-while-popped", "id-comes-round"} {
-		var err error
-		for attempt := 0; attempt < 3; attempt++ {
-			if err = c18forced(rng.New(seed*77+uint64(len(w))), "c18forced-"+w, w); err == nil {
-				break
+// c18forcedAll runs the forced orderings. The engine runs it in a process of its own with GOMAXPROCS=1: whether a
+// channel handed back to a sync.Pool is the one the next request gets depends on the P the two goroutines run on.
+func c18forcedAll(seed uint64, reps int) {
+	for rep := 0; rep < reps; rep++ {
+		for _, w := range []string{"cancel-while-popped", "id-comes-round"} {
+			if w == "id-comes-round" && rep > 0 {
+				continue
+			}
+			var err error
+			for attempt := 0; attempt < 3; attempt++ {
+				name := fmt.Sprintf("c18forced-%s", w)
+				if rep > 0 {
+					name = fmt.Sprintf("c18forced-%s-%d", w, rep)
+				}
+				if err = c18forced(rng.New(seed*77+uint64(len(w))+uint64(rep)), name, w); err == nil {
+					break
+				}
+			}
+			if err != nil {
+				emit(map[string]interface{}{"kind": "error", "scenario": "c18forced-" + w, "err": err.Error()})
 			}
 		}
-		if err != nil {
-			emit(map[string]interface{}{"kind": "error", "scenario": "c18forced-" + w, "err": err.Error()})
-		}
 	}
+}
+
+func c18(seed uint64, n int) {
 	for i := 0; i < n; i++ {
 		r := rng.New(seed*1000003 + uint64(i))
 		name := fmt.Sprintf("c18-%d-%d", seed, i)
@@ -557,26 +571,42 @@ func c18forced(r *rng.R, name, which string) error {
 		case <-time.After(2 * time.Second):
 			return fmt.Errorf("cancelled call did not return")
 		}
-		s.settle(taken) // records ["ctx", a]
-		b := s.newCaller(tyWrite, 10*time.Second)
-		if err := s.launch([]*Caller{b}); err != nil {
-			return err
+		s.settle(taken) // records ["ctx", a]: the give-up path of A has completed, its goroutine has returned
+		// new requests, one after the other: whatever A's give-up path handed back is taken by one of them
+		var bs []*Caller
+		for j := 0; j < 3; j++ {
+			b := s.newCaller(tyWrite, 10*time.Second)
+			if err := s.launch([]*Caller{b}); err != nil {
+				return err
+			}
+			bs = append(bs, b)
 		}
 		ctl.Free("disp")
 		s.events = append(s.events, Ev{"lock"}, Ev{"deliver"}, Ev{"resume"})
-		time.Sleep(20 * time.Millisecond)
+		// the late response is delivered now; wait until the dispatcher is through with it (barrier call)
+		bar, err := s.barrierStart()
+		if err != nil {
+			return err
+		}
+		if err := s.barrierEnd(bar); err != nil {
+			return err
+		}
 		s.settle(taken)
 		s.emitCase("late-response-delivered")
-		if !b.finished() {
-			if err := s.frame("ok", s.idOf[b.Tid], b.Tid, tyWrite); err != nil {
-				return err
+		for _, b := range bs {
+			if !b.finished() {
+				if err := s.frame("ok", s.idOf[b.Tid], b.Tid, tyWrite); err != nil {
+					return err
+				}
 			}
+		}
+		for _, b := range bs {
 			select {
 			case <-b.done:
 			case <-time.After(2 * time.Second):
 			}
-			s.settle(taken)
 		}
+		s.settle(taken)
 		s.emitCase("end")
 	case "id-comes-round":
 		pend := s.newCaller(tyWrite, 10*time.Second)
